@@ -108,6 +108,10 @@ class RuleTr:
         if key in self.names:
             t, ty = self.names[key]
             return t, ty, False
+        # a sub-expression built from integer literals only is folded (`(1 << 32) - 1` and `0xFFFFFFFF` are the same constant)
+        folded = _fold_const(e)
+        if folded is not None and not isinstance(e, ast.Constant):
+            return f"({folded} : Int)", "Int", False
         if isinstance(e, ast.Constant):
             if isinstance(e.value, bool):
                 return ("1" if e.value else "0"), "Int", False
@@ -219,6 +223,43 @@ class RuleTr:
         if isinstance(s, ast.Pass):
             return self.block(rest, indent)
         raise Untr(f"statement {type(s).__name__}: {ast.unparse(s)[:60]}")
+
+
+def _fold_const(e):
+    """value of an expression made of int literals and + - * // % << >> & | ^ unary - + only, else None"""
+    if isinstance(e, ast.Constant):
+        return e.value if isinstance(e.value, int) and not isinstance(e.value, bool) else None
+    if isinstance(e, ast.UnaryOp) and isinstance(e.op, (ast.USub, ast.UAdd)):
+        v = _fold_const(e.operand)
+        return None if v is None else (-v if isinstance(e.op, ast.USub) else v)
+    if isinstance(e, ast.BinOp):
+        a, b = _fold_const(e.left), _fold_const(e.right)
+        if a is None or b is None:
+            return None
+        try:
+            if isinstance(e.op, ast.Add):
+                return a + b
+            if isinstance(e.op, ast.Sub):
+                return a - b
+            if isinstance(e.op, ast.Mult):
+                return a * b
+            if isinstance(e.op, ast.FloorDiv):
+                return a // b if b else None
+            if isinstance(e.op, ast.Mod):
+                return a % b if b else None
+            if isinstance(e.op, ast.LShift):
+                return a << b if 0 <= b <= 4096 else None
+            if isinstance(e.op, ast.RShift):
+                return a >> b if 0 <= b <= 4096 else None
+            if isinstance(e.op, ast.BitAnd):
+                return a & b
+            if isinstance(e.op, ast.BitOr):
+                return a | b
+            if isinstance(e.op, ast.BitXor):
+                return a ^ b
+        except (OverflowError, ValueError):
+            return None
+    return None
 
 
 def _terminates(stmts):
